@@ -254,6 +254,11 @@ func TestVerifRigReplica(t *testing.T) {
 	}
 	// rigTakeProbe reads the raft node for indexes; a replica has none.
 	res.Extra["sessions"] = rigReplicaSessions(aliases)
+	// Observers added by other engines (steps_*.go); they look at the step's tag
+	// to decide whether they are meant and add keys to res.Extra.
+	for _, h := range rigReplicaHooks {
+		h(mode, fsm, res)
+	}
 	if err := rigAppendResult(os.Getenv("VERIF_RIG_RESULTS"), res); err != nil {
 		fail("write: %v", err)
 	}
@@ -262,6 +267,9 @@ func TestVerifRigReplica(t *testing.T) {
 	outputStream.Close()
 	os.Exit(0)
 }
+
+// rigReplicaHooks run in the replica observer after the log was applied.
+var rigReplicaHooks []func(mode string, fsm *FSM, res *rigResult)
 
 func rigReplicaSessions(aliases map[string]*rigClientSess) []rigSessProj {
 	var out []rigSessProj
